@@ -665,8 +665,11 @@ static void stage_porta(Case &c)
         }
     }
     if(reached_at < 0 && g_w.violations_in_case == 0)
-    {   // the statement fixes no time scale: not reaching the target within 60 s of audio is recorded, not judged
-        c.inconclusive = true; count("portamento_target_not_reached_in_60s");
+    {   // bounded progress: the glide offset has to go to zero. The statement fixes no time scale, so the bound is generous: the slowest
+        // portamento time together with the widest distance generated for it needs under 10 s of audio; 60 s were rendered
+        count("portamento_target_not_reached_in_60s");
+        c.violation(vfmt("oracle:C10:portamento-never-arrives:%s", J.fam),
+                    vfmt("%s after %ld frames (60 s) the gliding note stands at block=%u fnum=%u (%.3fHz) after %ld frequency writes; the played key is p=%.4f = %.3fHz", ctx.c_str(), frames, last_block, last_fnum, group_hz(last_block, last_fnum, r.clock), steps, p_dst, nominal_hz(p_dst)));
     }
     else
     {
